@@ -44,8 +44,14 @@ def real_write(table, dlm, policy, line_sep, encoding):
     sink = io.StringIO(newline='') if encoding is None else io.BytesIO()
     try:
         w = rbql_csv.CSVWriter(sink, False, encoding, dlm, policy, line_sep)
-        for rec in table:
-            w.write(list(rec))
+        # the first line of a rectangular table goes through set_header() half of the time (that is how every query over a table with a
+        # header writes its first output line); a header line is a line like any other
+        via_header = bool(table) and len(set(len(r) for r in table)) == 1 and all(c is not None for c in table[0]) and (len(table) + len(table[0][0] if table[0] else '')) % 2 == 1
+        for i, rec in enumerate(table):
+            if i == 0 and via_header:
+                w.set_header(list(rec))
+            else:
+                w.write(list(rec))
         w.finish()
         payload = sink.getvalue()
         return payload, w.get_warnings(), None
